@@ -95,3 +95,74 @@ func VerifC17RenameThenInitialize() {
 		v.Assert(found, "C17: initialize did not add the constructor assignment")
 	}
 }
+
+// VerifC17SelectorsAfterBuilderRules: builder rules run before option rules; after a builder was duplicated or
+// renamed, an option rule selected by BUILDER name (by_builder) touches the options of exactly the builder of
+// that name, and one selected by OBJECT name (by_name) the options of every builder for that object.
+func VerifC17SelectorsAfterBuilderRules() {
+	p := ast.NewSchema("p", ast.SchemaMeta{})
+	p.AddObject(ast.NewObject("p", "Foo", ast.NewStruct(ast.NewStructField("title", ast.String()), ast.NewStructField("uid", ast.String()))))
+	p.AddObject(ast.NewObject("p", "Bar", ast.NewStruct(ast.NewStructField("title", ast.String()))))
+	schemas := ast.Schemas{p}
+	builders := (&ast.BuilderGenerator{}).FromAST(schemas)
+	var brules []builder.RewriteRule
+	names := map[string]string{} // builder name -> object name, after the builder rules
+	switch v.Choose(3) {
+	case 0:
+		brules = append(brules, builder.Duplicate(builder.ByObjectName("p", "Foo"), "Snapshot", nil))
+		names = map[string]string{"Foo": "Foo", "Snapshot": "Foo", "Bar": "Bar"}
+	case 1:
+		brules = append(brules, builder.Rename(builder.ByObjectName("p", "Foo"), "Snapshot"))
+		names = map[string]string{"Snapshot": "Foo", "Bar": "Bar"}
+	default:
+		names = map[string]string{"Foo": "Foo", "Bar": "Bar"}
+	}
+	target := v.Str("target", "Foo", "Snapshot", "Bar", "Nope")
+	opt := v.Str("opt", "title", "uid")
+	byBuilder := v.Bool("bybuilder")
+	var sel option.Selector
+	if byBuilder {
+		sel = option.ByBuilder("p", target, opt)
+	} else {
+		sel = option.ByName("p", target, opt)
+	}
+	var orule option.RewriteRule
+	omit := v.Bool("omit")
+	if omit {
+		orule = option.Omit(sel)
+	} else {
+		orule = option.Rename(sel, "heading")
+	}
+	rw := rewrite.NewRewrite([]rewrite.LanguageRules{{Language: rewrite.AllLanguages, BuilderRules: brules, OptionRules: []option.RewriteRule{orule}}}, rewrite.Config{})
+	out, err := rw.ApplyTo(schemas, builders, "go")
+	v.Assert(err == nil, "C17: a rule sequence made ApplyTo fail")
+	if err != nil {
+		return
+	}
+	v.Assert(len(out) == len(names), "C17: the builder rules did not produce the expected builders")
+	for _, b := range out {
+		obj, known := names[b.Name]
+		v.Assert(known && obj == b.For.Name, "C17: the builder rules did not produce the expected builders")
+		selected := (byBuilder && b.Name == target) || (!byBuilder && b.For.Name == target)
+		for _, fieldName := range []string{"title", "uid"} {
+			if b.For.Name == "Bar" && fieldName == "uid" {
+				continue
+			}
+			hit := selected && fieldName == opt
+			has, renamed := false, false
+			for _, o := range b.Options {
+				if len(o.Assignments) == 1 && len(o.Assignments[0].Path) == 1 && o.Assignments[0].Path[0].Identifier == fieldName {
+					has = true
+					renamed = o.Name == "heading"
+				}
+			}
+			if hit && omit {
+				v.Assert(!has, "C17: a selected option was not removed / renamed")
+			} else if hit {
+				v.Assert(has && renamed, "C17: a selected option was not removed / renamed")
+			} else {
+				v.Assert(has && !renamed, "C17: an option no rule selected was removed or renamed")
+			}
+		}
+	}
+}
